@@ -388,6 +388,59 @@ func PathString(path []*REdge) string {
 	return strings.Join(s, " ; ")
 }
 
+// ReplayFromPath is ReplayObject for a path without a step result.
+func ReplayFromPath(c *Conc, path []*REdge) map[string]any {
+	init := ""
+	if len(path) > 0 {
+		init = path[0].S
+	}
+	return ReplayObject(&StepResult{Path: path, Init: init, Conc: c})
+}
+
+// LoadReplay rebuilds graph and path from a recorded scenario.
+func LoadReplay(file string) (*Graph, []*REdge, int64, []string, []string, error) {
+	b, err := os.ReadFile(file)
+	if err != nil {
+		return nil, nil, 0, nil, nil, err
+	}
+	var rec struct {
+		Scenario struct {
+			Seed  int64             `json:"seed"`
+			Init  json.RawMessage   `json:"init"`
+			Edges []json.RawMessage `json:"edges"`
+			Pairs []string          `json:"pairs"`
+			Files []string          `json:"files"`
+		} `json:"scenario"`
+	}
+	if err := json.Unmarshal(b, &rec); err != nil || len(rec.Scenario.Edges) == 0 {
+		return nil, nil, 0, nil, nil, fmt.Errorf("not a Project scenario: %v", err)
+	}
+	quote := func(v any) string {
+		j, _ := json.Marshal(v)
+		q, _ := json.Marshal(string(j))
+		return string(q)
+	}
+	printed := []string{quote(map[string]json.RawMessage{"init": rec.Scenario.Init})}
+	for _, e := range rec.Scenario.Edges {
+		printed = append(printed, quote(e))
+	}
+	g, err := LoadGraph(printed)
+	if err != nil {
+		return nil, nil, 0, nil, nil, err
+	}
+	var p []*REdge
+	cur := g.Inits[0]
+	for range rec.Scenario.Edges {
+		if len(g.Out[cur]) == 0 {
+			break
+		}
+		e := g.Out[cur][0]
+		p = append(p, e)
+		cur = e.T
+	}
+	return g, p, rec.Scenario.Seed, rec.Scenario.Pairs, rec.Scenario.Files, nil
+}
+
 // ReplayObject is the scenario recorded with a violation.
 func ReplayObject(r *StepResult) map[string]any {
 	acts := []json.RawMessage{}
